@@ -18,13 +18,14 @@ RULE = ('case = file-based generated pipeline (JSON/YAML, uses with and without 
         'content hashes of all regular files of the source tree are unchanged; the second migration changes no file of the target. non-trivial = >=1 migrated '
         'directory-type or empty result and >=1 task left uncomputed; distinct = hash(files, root, computed subset)')
 REQUIRED = ['migrations', 'migrated_results_loaded', 'uncomputed_tasks_checked', 'dry_runs_checked', 'second_migrations_checked', 'source_trees_checked',
-            'multi_config_roots', 'explicit_part_roots', 'explicitly_named_configs', 'directory_results_migrated', 'empty_results_migrated']
+            'multi_config_roots', 'explicit_part_roots', 'explicitly_named_configs', 'directory_results_migrated', 'empty_results_migrated',
+            'linked_directory_results_migrated', 'config_object_used_for_a_chain_before_migration']
 ASSUMPTIONS = ['the migration function takes no root namespace: roots without namespace only',
                'one config file is not mounted twice (name mode addresses results by config name, two mounts would share a location by design)',
                'newly created EMPTY directories in the source are ignored (inspecting a task creates its directory)']
 BUDGET = {'quick': 60, 'thorough': 1200}
-FEAT = {'same_file_twice': False, 'dup_module_file': False, 'set_objects': False}
-DIR_KINDS = ('dir', 'continues', 'listnp', 'empty_dir', 'empty_listnp')
+FEAT = {'same_file_twice': False, 'dup_module_file': False, 'set_objects': False, 'data_kinds': S.DATA_KINDS + ['dir_link', 'dir_link']}
+DIR_KINDS = ('dir', 'continues', 'listnp', 'empty_dir', 'empty_listnp', 'dir_link')
 
 
 def run_one(rng, res: CaseResult):
@@ -76,6 +77,9 @@ def run_one(rng, res: CaseResult):
         old_has = r1['steps'][-1]['has_data']
         src_before = lab.tree_hash('src_data')
         mig = {'op': 'migrate', 'root': root, 'target_name': 'target', 'data_dir_name': 'src_data'}
+        if rng.random() < 0.4:
+            mig['pre_chain'] = rng.choice(['param', 'name'])
+            res.count('config_object_used_for_a_chain_before_migration')
         r2 = lab.run([dict(mig, dry=True)], data_dir=lab.root / 'src_data')
         if session_problem(r2):
             res.inconclusive.append(session_problem(r2))
@@ -172,6 +176,8 @@ def run_one(rng, res: CaseResult):
             return
         if n in computed and kind != 'memory':
             res.count('migrated_results_loaded')
+            if kind == 'dir_link':
+                res.count('linked_directory_results_migrated')
             if kind in DIR_KINDS:
                 res.count('directory_results_migrated')
                 nt_dir = True
